@@ -61,6 +61,9 @@ func genC01Case(t *rapid.T) C01Case {
 	big.UserID, big.LoginName = "uid-big", "loginbig@users.example"
 	big.Custom = append(big.Custom, world.CustomAttr{Name: "groups", NameFormat: "urn:oasis:names:tc:SAML:2.0:attrname-format:basic", Values: bigValues(400, "c01")})
 	spec.Users = append(spec.Users, big) // a record whose response does not fit a redirect URL of a few kilobytes
+	same := stdUser(8)
+	same.UserID, same.LoginName = "samename@users.example", "samename@users.example"
+	spec.Users = append(spec.Users, same) // a directory keyed by login name: the user's id IS the login name
 	c := C01Case{Spec: spec}
 	n := rapid.IntRange(6, 40).Draw(t, "nops")
 	for i := 0; i < n; i++ {
@@ -74,7 +77,7 @@ func genC01Case(t *rapid.T) C01Case {
 		case "seed":
 			sp := rapid.IntRange(0, 2).Draw(t, "sp")
 			done := rapid.IntRange(0, 2).Draw(t, "done") == 0
-			user := rapid.SampledFrom([]string{"", "uid-0", "uid-1", "uid-unknown", "uid-big"}).Draw(t, "user")
+			user := rapid.SampledFrom([]string{"", "uid-0", "uid-1", "uid-unknown", "uid-big", "samename@users.example"}).Draw(t, "user")
 			if done && user == "" {
 				user = "uid-0"
 			}
@@ -90,7 +93,7 @@ func genC01Case(t *rapid.T) C01Case {
 			}
 		case "complete":
 			op.Ref = rapid.IntRange(0, 50).Draw(t, "ref")
-			op.User = rapid.SampledFrom([]string{"uid-0", "uid-1", "uid-0", "uid-1", "uid-unknown", "uid-big"}).Draw(t, "user")
+			op.User = rapid.SampledFrom([]string{"uid-0", "uid-1", "uid-0", "uid-1", "uid-unknown", "uid-big", "samename@users.example"}).Draw(t, "user")
 		case "fault":
 			op.FaultOp = rapid.SampledFrom([]string{"SetUserinfoWithUserID", "SetUserinfoWithUserID", "GetResponseSigningKey", "GetEntityIDByAppID", "AuthRequestByID"}).Draw(t, "faultop")
 			op.FaultKind = rapid.SampledFrom([]string{"error", "error", "errval"}).Draw(t, "faultkind0")
@@ -108,7 +111,7 @@ func genC01Case(t *rapid.T) C01Case {
 			if rapid.IntRange(0, 4).Draw(t, "live") == 0 {
 				op.IDExpr = "exact"
 				op.LiveAt = rapid.IntRange(1, 5).Draw(t, "liveat")
-				op.LiveUser = rapid.SampledFrom([]string{"uid-0", "uid-1", "uid-big"}).Draw(t, "liveuser")
+				op.LiveUser = rapid.SampledFrom([]string{"uid-0", "uid-1", "uid-big", "samename@users.example"}).Draw(t, "liveuser")
 			}
 		}
 		c.Ops = append(c.Ops, op)
